@@ -168,6 +168,70 @@ func init() {
 			}
 		}
 		sb.WriteString(strings.Join(rows, ",\n") + "\n]\n")
+		// the goroutines AddPeer starts per peer, and whether the routine's body contains a recover (it would have to be a
+		// deferred function literal calling recover(), or a deferred call of a method that does)
+		addPeer, err := e.funcDecl("consensus/reactor.go", "ConsensusReactor", "AddPeer")
+		if err != nil {
+			return "", err
+		}
+		var gor []string
+		var ginspectErr error
+		ast.Inspect(addPeer.Body, func(n ast.Node) bool {
+			gs, ok := n.(*ast.GoStmt)
+			if !ok {
+				return true
+			}
+			name := "?"
+			if sel, ok := gs.Call.Fun.(*ast.SelectorExpr); ok {
+				name = sel.Sel.Name
+			}
+			hasRecover := false
+			if fd, err := e.funcDecl("consensus/reactor.go", "ConsensusReactor", name); err != nil {
+				ginspectErr = err
+			} else {
+				txt := src(e, fd.Body)
+				hasRecover = strings.Contains(txt, "recover()") || strings.Contains(txt, "_recover")
+			}
+			gor = append(gor, fmt.Sprintf("  (%s, %v)", c02Str(name), hasRecover))
+			e.facts = append(e.facts, fact{Module: "C16Facts", Kind: "peer-goroutine", Name: name, Value: hasRecover, Pos: "consensus/reactor.go:AddPeer"})
+			return true
+		})
+		if ginspectErr != nil {
+			return "", ginspectErr
+		}
+		sb.WriteString("\n/-- (routine started with `go` in AddPeer, its body recovers) -/\n")
+		sb.WriteString("def peerGoroutines : List (String × Bool) := [\n" + strings.Join(gor, ",\n") + "\n]\n")
+		// the places where a bit array taken from a message is stored in / combined with the peer state, and whether Receive
+		// validates the message's bit arrays (consistency of Bits and Elems) before dispatching on the channel
+		recv, err := e.funcDecl("consensus/reactor.go", "ConsensusReactor", "Receive")
+		if err != nil {
+			return "", err
+		}
+		rtxt := src(e, recv.Body)
+		if i := strings.Index(rtxt, "switch chID"); i >= 0 {
+			rtxt = rtxt[:i]
+		}
+		validated := strings.Contains(rtxt, "ValidateBasic") || strings.Contains(rtxt, "validBitArray") || strings.Contains(rtxt, "validateMsg")
+		var stores []string
+		for _, st := range []struct{ fn, op string }{
+			{"ApplyCommitStepMessage", "ps.PRS.ProposalBlockParts = msg.BlockParts"},
+			{"ApplyProposalPOLMessage", "ps.PRS.ProposalPOL = msg.ProposalPOL"},
+			{"ApplyVoteSetBitsMessage", "otherVotes.Or(msg.Votes)"},
+		} {
+			fd, err := e.funcDecl("consensus/reactor.go", "PeerState", st.fn)
+			if err != nil {
+				return "", err
+			}
+			txt := src(e, fd.Body)
+			if !strings.Contains(txt, st.op) {
+				return "", fmt.Errorf("C16Facts: %s no longer contains `%s`", st.fn, st.op)
+			}
+			local := strings.Contains(txt[:strings.Index(txt, st.op)], "ValidateBasic") || strings.Contains(txt[:strings.Index(txt, st.op)], "validBitArray")
+			stores = append(stores, fmt.Sprintf("  (%s, %s, %v)", c02Str(st.fn), c02Str(st.op), validated || local))
+			e.facts = append(e.facts, fact{Module: "C16Facts", Kind: "peer-bitarray-store", Name: st.fn, Value: validated || local, Pos: "consensus/reactor.go:" + st.fn})
+		}
+		sb.WriteString("\n/-- (function, statement that stores/combines a bit array from a message, a validation of it precedes) -/\n")
+		sb.WriteString("def peerBitArrayStores : List (String × String × Bool) := [\n" + strings.Join(stores, ",\n") + "\n]\n")
 		return sb.String(), nil
 	})
 }
